@@ -469,6 +469,9 @@ def _r1(ctx):
             return any(opaque(x) for x in b_[2])          # a visible re-ordering / selection / copy of its arguments
         return True
     b = match(("call", ("global", "enumerate"), (V("z"),), ()), it)
+    if not b and strip_transparent(simp(it))[0] == "call" and strip_transparent(simp(it))[1] == ("global", "zip") and not strip_transparent(simp(it))[3]:
+        # no counter at the top: the statements are zipped from lists that were numbered when they were built
+        b = {"z": strip_transparent(simp(it))}
     srcs = [x for a in seqs_of(b["z"]) for x in sources(a)] if b else []
     # a list built one entry per reaction whose entries are then overwritten in place: somebody else writes the guard / rate text
     for b_, _ in srcs:
@@ -535,6 +538,14 @@ def _r1(ctx):
     def resolve(v_, depth=0):
         if not isinstance(v_, tuple) or not v_:
             return v_
+        # the pair (counter, entry) of an enumerate read by position; the entry of a list chosen by a condition
+        if v_[0] in ("item", "sub") and len(v_) == 3 and v_[2] in (0, 1, ("const", 0), ("const", 1)) and isinstance(v_[1], tuple) and len(v_[1]) == 3 and v_[1][0] == "elem":
+            e_ = strip_transparent(simp(v_[1][1]))
+            if e_[0] == "call" and e_[1] == ("global", "enumerate") and len(e_[2]) == 1 and not e_[3]:
+                first = v_[2] in (0, ("const", 0))
+                return resolve(("idx" if first else "elem", e_[2][0], v_[1][2]), depth)
+        if v_[0] == "elem" and len(v_) == 3 and isinstance(v_[1], tuple) and v_[1] and v_[1][0] in ("phi", "ifexp") and depth < 6:
+            return ("phi", v_[1][1], resolve(simp(("elem", v_[1][2], v_[2])), depth + 1), resolve(simp(("elem", v_[1][3], v_[2])), depth + 1))
         if v_[0] == "elem" and len(v_) == 3 and helped(v_[1]):
             return at(v_[1], v_[2], depth)
         if v_[0] == "idx" and len(v_) == 3 and all(b_ == R and not f_ for z in seqs_of(v_[1]) for b_, f_ in sources(z)):
@@ -1650,4 +1661,17 @@ BENIGN += [
     {"name": "statements-as-dataclass-objects", "edits": [
         {"file": T, "old": "class TemplateLoader:\n", "new": _STMT_CLASS % '"\\n".join([f"if ({self.window}) {{", plain, "}"])'},
         {"file": T, "old": _STMT_COMP, "new": _STMT_OBJECTS}]},
+]
+# ---- wave 3: no counter at the top -- the assignments are numbered when they are built, then zipped with the guards
+_STMT_ZIPPED = ('        assigns = [f"{rate_sym}[{ridx}] = {rateexpr};" for ridx, rateexpr in enumerate(%s)]\n'
+                '        rateassign = [f"if ({trange}) {{\\n{assign}\\n}}" if trange else assign for trange, assign in zip(tranges, assigns)%s]\n')
+MUTANTS += [
+    {"name": "zipped-assignments-guarded-only", "file": T, "old": _STMT_COMP, "new": _STMT_ZIPPED % ("rateexprs", " if trange"), "rules": ["R1"]},
+    {"name": "zipped-assignments-numbered-from-one", "file": T, "old": _STMT_COMP, "new": (_STMT_ZIPPED % ("rateexprs", "")).replace("{ridx}", "{ridx + 1}"), "rules": ["R1"]},
+]
+BENIGN += [
+    {"name": "zipped-assignments-numbered-when-built", "file": T, "old": _STMT_COMP, "new": _STMT_ZIPPED % ("rateexprs", "")},
+    {"name": "thermal-rates-by-methodcaller", "edits": [
+        {"file": T, "old": "from tqdm import tqdm\n", "new": "from tqdm import tqdm\nfrom operator import methodcaller\n"},
+        {"file": T, "old": "rateexprs = [reac.rateexpr() for reac in reactions]", "new": 'rateexprs = list(map(methodcaller("rateexpr"), reactions))'}]},
 ]
